@@ -13,14 +13,14 @@ from mc import docs
 from mc.kernel import Tally, case_alarm, chunked, fan_out, observed_warnings
 from mc.observe import compare_items, compare_outcome, exc_names, items_of, parse_one
 from mc.ref.interp import decode_packet
-from mc.spec import (And, BoolExpr, Cmp, Cond, Container, Doc, IntEnc, Or, Param, Poly, PType, HEADER_NAMES, header_entries, header_params,
+from mc.spec import (And, BoolExpr, Cmp, Cond, Container, Doc, Fixed, IntEnc, StrEnc, Or, Param, Poly, PType, HEADER_NAMES, header_entries, header_params,
                      header_ptypes, load_doc, build_objects)
 
 PROP = "C05"
 LEVEL = "exploration"
 
 OTHER_NAMES = ("CCSDS_VER", "CCSDS_TYPE", "CCSDS_SHF", "APP_ID", "GRP_FLAGS", "SSC", "LENGTH")
-N_CRIT = 9
+N_CRIT = 10
 
 
 def criterion(k, apid):
@@ -39,6 +39,8 @@ def criterion(k, apid):
         (BoolExpr(And((Cond(apid, "!=", right_value="3", right_cal=False),),
                       (Or((Cond("SEL", "==", right_value="1", right_cal=False), Cond("SEL", "==", right_value="0", right_cal=False)),
                           (And((Cond(apid, "==", right_value="2", right_cal=False), Cond("SEL", "==", right_value="3", right_cal=False))),)),))),),
+        # a text discriminator whose trailing blank is significant: TAG is 'HK', 'H ', ' K' or '  ' (by APID)
+        (BoolExpr(Cond("TAG", "==", right_value="H ", right_cal=False)),),
     ][k]
 
 
@@ -52,13 +54,14 @@ def make_doc(n, parents, crits, abstract_bits, nest, children_first, other_names
     names = OTHER_NAMES if other_names else HEADER_NAMES
     apid = names[3]
     pts = list(header_ptypes()) + [PType("SEL_T", "Integer", IntEnc(2)), PType("P6_T", "Integer", IntEnc(6)), PType("M_T", "Integer", IntEnc(8)),
-                                   PType("CSEL_T", "Integer", IntEnc(2, default_cal=Poly(((2.0, 1),)))), PType("P4_T", "Integer", IntEnc(4))]
-    prs = list(header_params(names)) + [Param("SEL", "SEL_T"), Param("CSEL", "CSEL_T"), Param("P6", "P4_T")] + [Param(f"M{i}", "M_T") for i in range(1, n)] + [Param("NM", "M_T"), Param("TAILM", "M_T"), Param("LM", "M_T"), Param("RM", "M_T")]
+                                   PType("CSEL_T", "Integer", IntEnc(2, default_cal=Poly(((2.0, 1),)))), PType("P4_T", "Integer", IntEnc(4)),
+                                   PType("TAG_T", "String", StrEnc(Fixed(16), "US-ASCII"))]
+    prs = list(header_params(names)) + [Param("SEL", "SEL_T"), Param("CSEL", "CSEL_T"), Param("P6", "P4_T"), Param("TAG", "TAG_T")] + [Param(f"M{i}", "M_T") for i in range(1, n)] + [Param("NM", "M_T"), Param("TAILM", "M_T"), Param("LM", "M_T"), Param("RM", "M_T")]
     cnames = [root_name] + [f"C{i}" for i in range(1, n)]
     conts = []
     for i in range(n):
         if i == 0:
-            entries = list(header_entries(names)) + [("p", "SEL"), ("p", "CSEL"), ("p", "P6")]
+            entries = list(header_entries(names)) + [("p", "SEL"), ("p", "CSEL"), ("p", "P6"), ("p", "TAG")]
         else:
             entries = [("p", f"M{i}")]
         if nest == 1:
@@ -79,19 +82,22 @@ def make_doc(n, parents, crits, abstract_bits, nest, children_first, other_names
         elif nest == 2:
             # nested container inside the root, between header and SEL
             if i == 0:
-                entries = list(header_entries(names)) + [("c", "NEST"), ("p", "SEL"), ("p", "CSEL"), ("p", "P6")]
+                entries = list(header_entries(names)) + [("c", "NEST"), ("p", "SEL"), ("p", "CSEL"), ("p", "P6"), ("p", "TAG")]
         base = None if i == 0 else cnames[parents[i - 1]]
         crit = None if i == 0 else criterion(crits[i - 1], apid)
         conts.append(Container(cnames[i], tuple(entries), base=base, criteria=crit, abstract=bool(abstract_bits >> i & 1),
                                short=f"node {i}" if i == 1 else None, force_list=(i == 2 and crit is not None and len(crit) == 1
                                                                                   and isinstance(crit[0], Cmp))))
-    if nest:
+    if nest and nest != 5:
         conts.append(Container("NEST", (("p", "NM"),)))
     if nest == 4:
         conts.append(Container("LEFT", (("c", "NEST"), ("p", "LM"))))
         conts.append(Container("RIGHT", (("c", "NEST"), ("p", "RM"))))
     if children_first:
         conts = list(reversed(conts))
+    if nest == 5:
+        # a stand-alone container, listed FIRST, that embeds the root container (which is also the base of the packet containers)
+        conts.insert(0, Container("DUMP", (("c", root_name), ("p", "TAILM"))))
     return Doc(tuple(pts), tuple(prs), tuple(conts), root=root_name)
 
 
@@ -99,7 +105,7 @@ def packets():
     out = []
     for apid in range(4):
         for sel in range(4):
-            payload = format(sel, "02b") + format((sel + apid) % 4, "02b") + "1010" + "".join(format(0x10 * (k + 1) + sel, "08b") for k in range(9))
+            payload = format(sel, "02b") + format((sel + apid) % 4, "02b") + "1010" + "".join(format(ord(ch), "08b") for ch in ("HK", "H ", " K", "  ")[apid]) + "".join(format(0x10 * (k + 1) + sel, "08b") for k in range(9))
             out.append(docs.packet_for(apid, payload, seqcount=apid * 4 + sel))
     return out
 
@@ -211,8 +217,10 @@ def all_specs(tier):
         for parents in parent_vectors(n):
             for crits in itertools.product(range(N_CRIT), repeat=n - 1):
                 for ab in range(1 << n):
-                    for nest in (0, 1, 2, 3, 4):
-                        if nest in (1, 3, 4) and n < 2:
+                    for nest in (0, 1, 2, 3, 4, 5):
+                        if nest in (1, 3, 4, 5) and n < 2:
+                            continue
+                        if nest == 5 and (n == 4 or ab not in (0, 1, 3)):
                             continue
                         if nest in (3, 4) and (n == 4 or ab not in (0, 1, (1 << n) - 1)):
                             continue  # the double-reference variants on a reduced set of abstract-flag assignments
@@ -246,9 +254,9 @@ def run(ctx):
     coverage = {
         "programs": tally.programs,
         "exhaustive": True,
-        "bound": (f"all parent vectors with <= {3 if ctx.quick else 4} containers x 9 criteria per child edge (APID==1, APID==2, APID!=1, SEL<2, two-comparison list, "
-                  "boolean expression, no RestrictionCriteria, two-parameter condition with mixed raw/calibrated selectors, nested AND/OR groups) x abstract flag per node x nesting {none, shared nested container referenced from two nodes, nested "
-                  "inside the root} x document order {parents first, children first} x header naming {conventional, other}; packets APID 0..3 x SEL 0..3; "
+        "bound": (f"all parent vectors with <= {3 if ctx.quick else 4} containers x 10 criteria per child edge (APID==1, APID==2, APID!=1, SEL<2, two-comparison list, "
+                  "boolean expression, no RestrictionCriteria, two-parameter condition with mixed raw/calibrated selectors, nested AND/OR groups, a text discriminator with a significant trailing blank) x abstract flag per node x nesting {none, shared nested container referenced from two nodes, nested "
+                  "inside the root, double reference, diamond, a stand-alone container listed first that embeds the root} x document order {parents first, children first} x header naming {conventional, other}; packets APID 0..3 x SEL 0..3; "
                   "parse_ccsds_packet and the generator with and without error reporting; every 11th document also built from objects"),
         "rule": "one evaluation = one packet through one API; distinct non-trivial = documents whose 16 packets reached >= 2 outcome classes",
     }
